@@ -364,7 +364,7 @@ pub fn key_of(name: &str) -> Key {
     let n = name.encode_utf16().count();
     let mut v = Vec::new();
     for c in name.chars() {
-        let u = cfb::verif::uppercase_char(c);
+        let u = crate::names::spec_upper(c);
         let mut b = [0u16; 2];
         v.extend_from_slice(u.encode_utf16(&mut b));
     }
